@@ -99,3 +99,12 @@ ASSUMPTIONS = [
 ]
 NOT_DECIDED = ["equality of the emitted sequences between different batch cuts (bucket boundaries legitimately differ)", "calculate() grouping/sorting; map_task_throughput pass-through (not yet under contract)"]
 TRUSTED = []
+
+
+def extra_checks(runner, ev):
+    """BOUNDED stand-in (never counted as proved): grouping by task in ThroughputCalculator.calculate (real code, interleaved tasks and batches)."""
+    from pyvc.run import bounded_check
+
+    return bounded_check(ev, "C06", "C06_calculate.py", "ThroughputCalculator.calculate: a task's throughput does not depend on other tasks' samples in the same batches (real code)",
+                         "esrally/driver/driver.py::ThroughputCalculator.calculate")
+
